@@ -425,17 +425,36 @@ func envReloadRound(r *hutil.Rng, pool []string, round int) {
 	v1, v2, v3 := mkVars("reload-1"), mkVars("reload-2"), mkVars("reload-3")
 	id1, _, _ := a.Schedule("r", v1)
 	id2, _, _ := a.Schedule("r", v2)
+	if id1 == "" || id2 == "" {
+		emit(map[string]interface{}{"kind": "error", "round": round, "what": "reload round: schedule failed"})
+		return
+	}
+	// a job accepted after the file changed must see the new definitions; the poll needs a moment (longer on a loaded machine), so the
+	// request is repeated a few times before a stale environment counts
+	after := func(pe, te map[string]string, vars map[string]interface{}, j int) map[string]interface{} {
+		var rec map[string]interface{}
+		for try := 1; try <= 6; try++ {
+			time.Sleep(400 * time.Millisecond)
+			id, st, msg := a.Schedule("r", vars)
+			if id == "" {
+				rec = map[string]interface{}{"kind": "error", "round": round, "what": fmt.Sprintf("reload round: schedule failed %d %s", st, msg)}
+				continue
+			}
+			a.WaitDone(id, 30*time.Second)
+			rec = checkTaskEnv(a, pool, baseEnv, round, j, id, "r", pe, "a", te, vars)
+			rec["tries"] = try
+			if ok, _ := rec["ok"].(bool); ok {
+				break
+			}
+		}
+		return rec
+	}
 	if err := a.WriteDefs(defs2); err != nil {
 		emit(map[string]interface{}{"kind": "error", "round": round, "what": err.Error()})
 		return
 	}
-	time.Sleep(400 * time.Millisecond)
-	id3, st3, msg3 := a.Schedule("r", v3)
-	if id1 == "" || id2 == "" || id3 == "" {
-		emit(map[string]interface{}{"kind": "error", "round": round, "what": fmt.Sprintf("reload round: schedule failed %d %s", st3, msg3)})
-		return
-	}
-	for _, id := range []string{id1, id2, id3} {
+	rec3 := after(pe2, te2, v3, 2)
+	for _, id := range []string{id1, id2} {
 		a.WaitDone(id, 30*time.Second)
 	}
 	// a second change that only renames one variable at each level (same number of entries, same values)
@@ -455,14 +474,7 @@ func envReloadRound(r *hutil.Rng, pool []string, round int) {
 		emit(map[string]interface{}{"kind": "error", "round": round, "what": err.Error()})
 		return
 	}
-	time.Sleep(400 * time.Millisecond)
-	v4 := mkVars("reload-4")
-	id4, _, _ := a.Schedule("r", v4)
-	if id4 == "" {
-		emit(map[string]interface{}{"kind": "error", "round": round, "what": "reload round: schedule after the rename failed"})
-		return
-	}
-	a.WaitDone(id4, 30*time.Second)
+	rec4 := after(pe3, te3, mkVars("reload-4"), 3)
 	// ... and one that only adds a variable at each level
 	pe4, te4 := map[string]string{}, map[string]string{}
 	for k, v := range pe3 {
@@ -478,22 +490,20 @@ func envReloadRound(r *hutil.Rng, pool []string, round int) {
 		emit(map[string]interface{}{"kind": "error", "round": round, "what": err.Error()})
 		return
 	}
-	time.Sleep(400 * time.Millisecond)
-	v5 := mkVars("reload-5")
-	id5, _, _ := a.Schedule("r", v5)
-	if id5 == "" {
-		emit(map[string]interface{}{"kind": "error", "round": round, "what": "reload round: schedule after the addition failed"})
-		return
-	}
-	a.WaitDone(id5, 30*time.Second)
+	rec5 := after(pe4, te4, mkVars("reload-5"), 4)
+	labels := []string{"running during reload", "queued during reload", "scheduled after reload", "scheduled after a reload that only renames variables", "scheduled after a reload that only adds variables"}
 	for j, x := range []struct {
 		id   string
-		pe   map[string]string
-		te   map[string]string
 		vars map[string]interface{}
-	}{{id1, pe1, te1, v1}, {id2, pe1, te1, v2}, {id3, pe2, te2, v3}, {id4, pe3, te3, v4}, {id5, pe4, te4, v5}} {
-		rec := checkTaskEnv(a, pool, baseEnv, round, j, x.id, "r", x.pe, "a", x.te, x.vars)
-		rec["reload"] = []string{"running during reload", "queued during reload", "scheduled after reload", "scheduled after a reload that only renames variables", "scheduled after a reload that only adds variables"}[j]
+	}{{id1, v1}, {id2, v2}} {
+		rec := checkTaskEnv(a, pool, baseEnv, round, j, x.id, "r", pe1, "a", te1, x.vars)
+		rec["reload"] = labels[j]
 		emit(rec)
+	}
+	for j, rec := range []map[string]interface{}{rec3, rec4, rec5} {
+		if rec != nil {
+			rec["reload"] = labels[2+j]
+			emit(rec)
+		}
 	}
 }
